@@ -11,7 +11,7 @@ RULE = ("(a) pure cases: option strings composed from known flags, python-gapic-
         "dependency files). (b) end-to-end: corpus/C11 (witnesses of repaired defects) first, then generated requests (package shape x "
         "version incl. v1p1beta1 / v2p3alpha x 1-3 target files incl. proto sub-packages one and two levels deep, services in "
         "sub-packages x dependency-only files incl. packages sharing a textual prefix x file names needing sanitising incl. "
-        "k8s_min.proto / k8s.min.proto x option strings incl. unknown options with '=' in the value) run through the real generator. "
+        "k8s_min.proto / k8s.min.proto x option strings incl. unknown options with '=' in the value x template tree (default; ads-templates with unversioned / versioned packages, root files / sub-packages)) run through the real generator. "
         "A case is one input tuple; distinct = distinct canonical JSON / request hash; non-trivial = at least one target file.")
 TRUSTED = [
     "Model/Files.v (Options.build, Naming.build, generate/API.build names, _render_template gating and iteration, _get_filename, "
@@ -322,10 +322,15 @@ E2E_BAD_UNKNOWN = ["foo=a=b", "Mx.proto=pkg=alias"]
 
 
 def gen_request(r, defect=None):
-    """-> case dict {request_b64, params, ...}.  defect: None | 'eq' | 'prefixdep' | 'nested' | 'subsvc'."""
+    """-> case dict {request_b64, params, ...}.  defect: None | 'eq' | 'prefixdep' | 'nested' | 'subsvc' | 'dotted' | 'ads'."""
     ns = r.choice(E2E_NS)
     name = r.choice(E2E_NAMES)
     ver = r.choice(E2E_VERSIONS)
+    ads = defect == "ads" or (defect is None and r.random() < 0.1)
+    if defect == "ads":
+        # the ads tree lays the package out as %namespace/%name/%version/%sub: unversioned packages with files in the root
+        # package leave two empty segments in a row; versioned ones and sub-packages are the controls
+        ver = r.choice(["", "", "", "v1", "v1beta1"])
     pkg = ".".join(ns + [name] + ([ver] if ver else []))
     d = pkg.replace(".", "/")
     stems = r.sample(FILE_POOL, r.randint(1, 3))
@@ -384,9 +389,12 @@ def gen_request(r, defect=None):
         params.append(r.choice(E2E_UNKNOWN))
     if defect == "eq":
         params.append(r.choice(E2E_BAD_UNKNOWN))
+    if ads:
+        params = [p for p in params if opt_key(p) not in ("autogen-snippets", "old-naming") and not p.startswith("python-gapic-templates")]
+        params += ["python-gapic-templates=ads-templates", r.choice(["old-naming", "autogen-snippets=false"])]
     r.shuffle(params)
     yaml = None
-    if r.random() < 0.1 and ver:
+    if r.random() < 0.1 and ver and not ads:
         yaml = {"type": "google.api.Service", "config_version": 3, "name": "files.example.com",
                 "publishing": {"library_settings": [{"version": pkg, "python_settings": {"experimental_features": {"unversioned_package_disabled": True}}}]}}
     req = apigen.request(deps + files, to_generate=[f.proto.name for f in files])
@@ -440,7 +448,11 @@ def reference(case):
         name = nmov[-1]
     stem2mod, svc2mod = dict(FILE_POOL + [("top", "top")]), dict(SVC_POOL)
     types, services = set(), set()
-    root = "/".join(ns + [name + ("_" + version if version else "")])
+    ads = any(p.strip() == "python-gapic-templates=ads-templates" for p in case["params"])
+    if ads:
+        root = "/".join(ns + [name] + ([version] if version else []))       # ads-templates: %namespace/%name/%version/
+    else:
+        root = "/".join(ns + [name + ("_" + version if version else "")])
     # file names that collide once dots are replaced (k8s_min.proto, k8s.min.proto) get a trailing underscore, in request order
     import keyword
     reserved = set(keyword.kwlist) | {"metadata", "retry", "timeout", "request"}
@@ -469,7 +481,7 @@ def reference(case):
             transports = p.strip().split("=", 1)[1]
             break
     unv_disabled = bool(case.get("yaml"))
-    return {"package": package, "root": root, "alias": "/".join(ns + [name]), "types": types, "services": services,
+    return {"ads": ads, "package": package, "root": root, "alias": "/".join(ns + [name]), "types": types, "services": services,
             "versioned": bool(version), "multi_package": len(pkgs) > 1, "metadata": any(opt_key(p) == "metadata" for p in case["params"]),
             "transports": transports.split("+"), "unversioned_disabled": unv_disabled,
             "dep_only": [fp.name for fp in req.proto_file if fp.name not in req.file_to_generate]}
@@ -502,6 +514,13 @@ def oracle(ctx, case, res, ref):
         segs = n.split("/")
         if n.startswith("/") or any(s in ("", ".", "..") for s in segs) or "\\" in n:
             viol(f"file name {n!r} is not relative and normalised")
+    import posixpath
+    byfile = {}
+    for n in names:
+        byfile.setdefault(posixpath.normpath(n), []).append(n)
+    for k, v in byfile.items():
+        if len(v) > 1:
+            viol(f"two response names denote the same file {k!r}: {v}")
     nameset = set(names)
     root, alias = ref["root"], ref["alias"]
     for n in names:
@@ -543,7 +562,8 @@ def oracle(ctx, case, res, ref):
             viol(f"empty module emitted: {f.name}")
     if not (res.supported_features & 1):
         viol("supported_features does not advertise FEATURE_PROTO3_OPTIONAL")
-    if ref["metadata"] != any(n.endswith("gapic_metadata.json") for n in names):
+    # (the ads tree ships its gapic_metadata.json.j2 commented out: nothing to emit there)
+    if not ref["ads"] and ref["metadata"] != any(n.endswith("gapic_metadata.json") for n in names):
         viol(f"gapic_metadata.json present={not ref['metadata']} but option metadata={ref['metadata']}")
     return len(ctx.violations) - v0
 
@@ -589,9 +609,10 @@ def run_e2e(ctx, cases, tag="c11e2e"):
                  f"e2e targets={len(ref['types'])}", f"e2e services={len(ref['services'])}"]
         feats += ["e2e dependency-only own file"] if any(not d.startswith("google/") for d in ref["dep_only"]) else []
         feats += ["e2e unknown options"] if unknown else []
+        feats += [("e2e ads-templates " + ("versioned" if ref["versioned"] else "unversioned"))] if ref["ads"] else []
         feats += ["e2e sub-package"] if any("/types/" in t and t.count("/") > ref["root"].count("/") + 2 for t in ref["types"]) else []
         ctx.case({"e2e": env.canon_hash(case)}, nontrivial=True, feature=feats)
-        tpl = "default_templates"
+        tpl = "ads_templates" if ref["ads"] else "default_templates"
         mterm = (f"generate {tpl} {files} {tg} {coq.s(gen_param(c))} {coq.b(ref['unversioned_disabled'])} false")
         if res is None:
             enum = err_enum(err)
@@ -665,6 +686,7 @@ def run(ctx):
     cases += [c for c in (make_case("C11-e2e", i) for i in range(ctx.n(26, 400))) if c]
     for k, d in enumerate(["eq", "prefixdep", "nested", "subsvc", "dotted"]):
         cases += [c for c in (make_case(f"C11-e2e-{d}", i, d) for i in range(ctx.n(1, 6))) if c]
+    cases += [c for c in (make_case("C11-e2e-ads", i, "ads") for i in range(ctx.n(5, 40))) if c]
     checks = run_e2e(ctx, cases)
     eval_e2e(ctx, checks, "c11e2e", len(cases))
 
